@@ -55,6 +55,9 @@ func (c *Ctx) field(pkgPath, typeName, fieldName string) *types.Var {
 			return st.Field(i)
 		}
 	}
+	if f := fieldByOld[pkgPath+"."+typeName+"."+fieldName]; f != nil {
+		return f
+	}
 	c.unresolved("field " + pkgPath + "." + typeName + "." + fieldName)
 	return nil
 }
@@ -133,7 +136,11 @@ func calleeName(cc *ssa.CallCommon) string {
 	}
 	if f := cc.StaticCallee(); f != nil {
 		if f.Object() != nil {
-			return f.Object().(*types.Func).FullName()
+			full := f.Object().(*types.Func).FullName()
+			if old, ok := fnAlias[f]; ok && strings.HasSuffix(full, "."+f.Name()) {
+				full = full[:len(full)-len(f.Name())] + old
+			}
+			return full
 		}
 		return f.String()
 	}
@@ -168,7 +175,7 @@ func isMethodNamed(i ssa.Instruction, recvSuffix, method string) bool {
 	if cc.IsInvoke() {
 		return cc.Method.Name() == method && strings.HasSuffix(cc.Value.Type().String(), recvSuffix)
 	}
-	if f := cc.StaticCallee(); f != nil && f.Signature.Recv() != nil && f.Name() == method {
+	if f := cc.StaticCallee(); f != nil && f.Signature.Recv() != nil && funcSimpleName(f) == method {
 		return strings.HasSuffix(strings.TrimPrefix(f.Signature.Recv().Type().String(), "*"), recvSuffix)
 	}
 	return false
